@@ -9,7 +9,7 @@
        is configured (the monitor keeps a copy of the data base and adds the bonds it sees stored);
      - otherwise no key.
    Clauses: key_without_pairing, key_wrong, key_missing. *)
-From BT Require Import Base.ListX SM.SMModel SM.SMSpec SM.SMProofs SM.ToyCrypto.
+From BT Require Import Base.ListX SM.SMModel SM.SMSpec SM.SMProofs SM.ToyCrypto SM.SMDirect.
 Local Open Scope N_scope.
 
 (* for every tool box satisfying tool_box_ok, every bond data base, every configuration (all four managers,
@@ -36,3 +36,54 @@ Example C33_monitor_rejects_key_after_failed_pairing :
 Proof. exact monitor_rejects_key_after_failure. Qed.
 Example C33_tool_box_hypotheses_nonvacuous : dh_ok toy /\ passkey_ok toy.
 Proof. exact (conj toy_dh_ok toy_passkey_ok). Qed.
+
+(* ---- monitor-independent statements, directly over the model's step / run / run_state (SM/SMDirect.v) ----
+   bond_answer: what the bond data base answers for the peer (nothing without bond data base);
+   unpaired_answer: bond_answer, or nothing without a security manager. *)
+
+(* in every reachable, live state the answer to find_key( ediv, rand ) is the connection's own key only if the
+   connection data says Completed and ediv = rand = 0; in all other cases exactly the bond data base's answer *)
+Theorem C33_direct_key_answer :
+  forall (K : crypto) (DB : Type) (D : dbops DB) c db0 ops ediv rnd,
+  let s := run_state K D c (init_state db0) ops in
+  dead s = false ->
+  exists k,
+    run K D c (init_state db0) (ops ++ [Key ediv rnd]) = run K D c (init_state db0) ops ++ [(Key ediv rnd, OKey k)] /\
+    ( (k = Some (ltk s) /\ st s = Completed /\ ediv = 0 /\ rnd = 0 /\ c_var c <> MNone)
+      \/ (k = unpaired_answer DB D c s ediv rnd /\ (st s <> Completed \/ ediv <> 0 \/ rnd <> 0 \/ c_var c = MNone)) ).
+Proof. exact key_answer_reachable. Qed.
+Print Assumptions C33_direct_key_answer.
+
+(* directly after an operation answered with Pairing Failed, find_key( 0, 0 ) is answered from the bond data base only *)
+Theorem C33_direct_key_after_failed_pairing :
+  forall (K : crypto) (DB : Type) (D : dbops DB) c db0 ops o r ev,
+  let s := run_state K D c (init_state db0) ops in
+  snd (step K D c s o) = OResp (5 :: r) ev ->
+  run K D c (init_state db0) (ops ++ [o; Key 0 0]) =
+  run K D c (init_state db0) ops ++
+    [(o, OResp (5 :: r) ev); (Key 0 0, OKey (unpaired_answer DB D c (fst (step K D c s o)) 0 0))].
+Proof. exact key_after_failed_pairing. Qed.
+Print Assumptions C33_direct_key_after_failed_pairing.
+
+(* and directly after a new connection *)
+Theorem C33_direct_key_after_new_connection :
+  forall (K : crypto) (DB : Type) (D : dbops DB) c db0 ops a,
+  let s := run_state K D c (init_state db0) ops in
+  dead s = false ->
+  run K D c (init_state db0) (ops ++ [Reset a; Key 0 0]) =
+  run K D c (init_state db0) ops ++
+    [(Reset a, ODone); (Key 0 0, OKey (unpaired_answer DB D c (new_connection s a) 0 0))].
+Proof. exact key_after_new_connection. Qed.
+Print Assumptions C33_direct_key_after_new_connection.
+
+(* non-vacuity: state after the passkey pairing of w_legacy_passkey (4 operations) is live and Completed, answers
+   (0,0) with its key and (7,7) with nothing; a stray PDU there is answered with Pairing Failed *)
+Example C33_direct_witnesses :
+  dead (ex_state 4) = false /\ st (ex_state 4) = Completed
+  /\ snd (step toy toydbops ex_cfg (ex_state 4) (Key 0 0)) = OKey (Some (ltk (ex_state 4)))
+  /\ snd (step toy toydbops ex_cfg (ex_state 4) (Key 7 7)) = OKey None
+  /\ snd (step toy toydbops ex_cfg (ex_state 4) (In [11])) = OResp [5; 7] [].
+Proof.
+  destruct key_answer_witness as [A [B [C E]]]. destruct key_after_failed_pairing_witness as [_ F].
+  exact (conj A (conj B (conj C (conj E F)))).
+Qed.
